@@ -12,7 +12,7 @@ import (
 // the plan, so replay needs no PRNG.
 
 var byteFaults = []string{"F1-torn-write", "F2-bit-flip", "F3-structural-byte", "F4-drop-span", "F5-duplicate-span", "F6-swap-spans", "F7-append-garbage", "F8-zero-fill"}
-var docFaults = []string{"F11-wrong-type-element", "F12-duplicates", "F13-reencode", "F14-partial-struct"}
+var docFaults = []string{"F11-wrong-type-element", "F12-duplicates", "F13-reencode", "F14-partial-struct", "F15-permute", "F16-respelled-key"}
 
 var structuralBytes = []byte("{}[],:\"\\0123456789abcdefntu-+.eE \n")
 
@@ -329,6 +329,34 @@ func applyDocFault(r *Rng, kind string, b []byte, elem string, capHint int) []by
 				elems = append(elems, elems[r.Intn(n)])
 			}
 		}
+	case "F15-permute": // the same elements / members in another order (a different document for the ordered kinds)
+		for i := len(elems) - 1; i > 0; i-- {
+			j := r.Intn(i + 1)
+			elems[i], elems[j] = elems[j], elems[i]
+		}
+		for i := len(members) - 1; i > 0; i-- {
+			j := r.Intn(i + 1)
+			members[i], members[j] = members[j], members[i]
+		}
+	case "F16-respelled-key": // a second member whose name is another spelling of a present key ("01" and "1" are one int key)
+		if !isObj || n == 0 {
+			return b
+		}
+		i := r.Intn(n)
+		k := members[i].key
+		switch {
+		case k == "0":
+			k = r.PickS("-0", "00", "+0")
+		case strings.HasPrefix(k, "-"):
+			k = "-0" + k[1:]
+		case r.Bool():
+			k = "0" + k
+		default:
+			k = "+" + k
+		}
+		m := member{k, members[r.Intn(n)].val}
+		at := r.Intn(n + 1)
+		members = append(members[:at], append([]member{m}, members[at:]...)...)
 	case "F14-partial-struct":
 		if isObj || elem != "item" {
 			return b
